@@ -228,6 +228,15 @@ example : [("a", Val.int 1), ("k", Val.bool true), ("_id", Val.int 0)].all (fun 
     Spec.Proj.aggInD (.doc [("a", .int 1), ("k", .bool true), ("_id", .int 0)]) d0 = true := by
   decide +kernel
 
+/-- an exclusion that keeps `_id` explicitly (`{a: 0, _id: 1}`, `_id` in any position) is inside
+    both domains: the stage accepts it, as the find projection does (it used to be refused) -/
+example : [("a", Val.int 0), ("_id", Val.int 1)].all (fun kv => isFlag kv.2) = true ∧
+    Spec.Proj.inD (.doc [("a", .int 0), ("_id", .int 1)]) d0 = true ∧
+    Spec.Proj.aggInD (.doc [("a", .int 0), ("_id", .int 1)]) d0 = true ∧
+    Spec.Proj.aggInD (.doc [("_id", .int 1), ("a", .int 0)]) d0 = true ∧
+    isOk (Pipe.projectStage (.doc [("_id", .int 1), ("a", .int 0)]) sample) = true := by
+  decide +kernel
+
 /-! ## `$group` -/
 
 /-- **group_conservation.** Whatever the key expression and accumulators, when `$group` answers
